@@ -522,11 +522,14 @@ class Array(Environment):
         before = None
         leftborder = None
 
-        tex.pushToken(Array)
+        # Use a throw-away instance (not the class itself) as the end marker
+        # since the token iterator sets attributes on the tokens it returns
+        endmarker = Array()
+        tex.pushToken(endmarker)
         tex.pushTokens(colspec)
 
         for tok in tex.itertokens():
-            if tok is Array:
+            if tok is endmarker:
                 break
 
             if tok.isElementContentWhitespace:
